@@ -347,3 +347,64 @@ def _glue_replay_for(dense, clause):
         r["reproduced"] = False
         r["reason"] = "the real code violates other clauses (%s), not this one" % r["real_code"]["violated"]
     return r
+
+
+def entry_point_forwards_arguments(run):
+    """get_smallest_vectors(...) (the entry point used by Primitive and by the force-constant code): the ShortestPairs object is
+    built from exactly the arguments given -- bases, both position sets, the storage format and the tolerance symprec."""
+    mod = pyexec.load(CF)
+    fn = mod.funcs["get_smallest_vectors"]
+    pref = CF + ":get_smallest_vectors"
+    st = PState()
+    given = {"supercell_bases": Opaque("supercell bases"), "supercell_pos": Opaque("supercell positions"), "primitive_pos": Opaque("primitive positions"),
+             "store_dense_svecs": z3.Bool("store_dense_svecs"), "symprec": z3.Real("symprec")}
+    cap = {}
+
+    def mk(ex, st_, args, kwargs):
+        cap["args"], cap["kw"], cap["pc"] = list(args), dict(kwargs), list(st_.pc)
+        return st_.new(Record("ShortestPairs", {"shortest_vectors": Opaque("svecs"), "multiplicities": Opaque("multi")}))
+    ex = PyExec(mod, run.sink, pref, hooks={"new:ShortestPairs": mk}, opaque_unknown=True, split=True)
+    n0 = len(run.sink.obls)
+    ex.call_function(st, fn, [given["supercell_bases"], given["supercell_pos"], given["primitive_pos"]],
+                     {"store_dense_svecs": given["store_dense_svecs"], "symprec": given["symprec"]})
+    if "kw" not in cap:
+        raise CheckerError("get_smallest_vectors: ShortestPairs is never constructed")
+    init = mod.method("ShortestPairs", "__init__")
+    names = [a.arg for a in init.args.args[1:]]
+    defaults = dict(zip(names[len(names) - len(init.args.defaults):], init.args.defaults))
+    for k, want in given.items():
+        if k in cap["kw"]:
+            got = cap["kw"][k]
+        elif k in names and names.index(k) < len(cap["args"]):
+            got = cap["args"][names.index(k)]
+        else:
+            got = None           # not passed: ShortestPairs falls back to its default
+        same = (got is want) or (pyexec.is_sym(got) and pyexec.is_sym(want) and got.eq(want))
+        run.sink.add(pref, "call-pre", cap["pc"], z3.BoolVal(bool(same)), replay=lambda model: replay_entry_point(),
+                     meta={"label": "ShortestPairs is built with the caller's %s%s" % (k, "" if same else " (got %r; its own default would be used)" % (got,))})
+    run.functions.append({"file": CF, "function": "get_smallest_vectors", "line": fn.lineno, "sha1": mod.sha(fn), "obligations": len(run.sink.obls) - n0})
+
+
+def replay_entry_point():
+    from pvc import creplay
+    import json
+    code = r'''
+import json
+import numpy as np
+import phonopy.structure.cells as cells
+got = {}
+class Fake:
+    def __init__(self, *a, **k):
+        got["symprec"] = k.get("symprec", a[4] if len(a) > 4 else "default")
+        got["store_dense_svecs"] = k.get("store_dense_svecs", a[3] if len(a) > 3 else "default")
+        self.shortest_vectors = None; self.multiplicities = None
+cells.ShortestPairs = Fake
+cells.get_smallest_vectors(np.eye(3), np.zeros((1, 3)), np.zeros((1, 3)), store_dense_svecs=True, symprec=1e-3)
+print(json.dumps({"symprec_received": got["symprec"], "store_dense_svecs_received": got["store_dense_svecs"]}))
+'''
+    rc, out, err = creplay.py_eval(code)
+    if rc != 0:
+        return {"reproduced": False, "reason": err[-400:]}
+    r = json.loads(out.strip().splitlines()[-1])
+    return {"reproduced": r["symprec_received"] != 1e-3 or r["store_dense_svecs_received"] is not True, "real_code": r,
+            "input": "get_smallest_vectors(..., store_dense_svecs=True, symprec=1e-3)", "expected": "both reach ShortestPairs"}
